@@ -133,6 +133,19 @@ class Cons:
         self.ub = ub
         self.name = name
 
+    @property
+    def variables(self):
+        return list(self.expression.terms)
+
+    def get_linear_coefficients(self, variables):
+        return {v: self.expression.terms.get(v, 0.0) for v in variables}
+
+    def set_linear_coefficients(self, coefs):
+        t = dict(self.expression.terms)
+        for v, c in dict(coefs).items():
+            t[v] = c
+        self.expression = Lin(t, self.expression.const)
+
     def normal(self) -> Tuple:
         """(terms, lb, ub) with the constant moved into the bounds."""
         e = self.expression
@@ -159,6 +172,13 @@ class Obj:
                 raise Unsupported("objective coefficient of a non-variable")
             t[v] = c
         self.expression = Lin(t, self.expression.const)
+
+    @property
+    def variables(self):
+        return list(self.expression.terms)
+
+    def get_linear_coefficients(self, variables):
+        return {v: self.expression.terms.get(v, 0.0) for v in variables}
 
     def copy(self):
         return Obj(Lin(self.expression.terms, self.expression.const), self.direction, name=self.name)
@@ -191,6 +211,12 @@ class Container:
     def __len__(self):
         return len(self.items)
 
+    def get(self, name, default=None):
+        for i in self.items:
+            if i.name == name:
+                return i
+        return default
+
 
 class Formulation:
     """What the solver would be asked to solve at one point in time."""
@@ -201,7 +227,7 @@ class Formulation:
         self.objective_terms = dict(s.objective.expression.terms)
         self.direction = s.objective.direction
         self.objective_name = s.objective.name
-        self.constraints = list(s.constraints.items)
+        self.constraints = [Cons(Lin(c.expression.terms, c.expression.const), c.lb, c.ub, c.name) for c in s.constraints.items]
         self.variables = list(s.variables.items)
         self.bounds = {r.id: (r.lower_bound, r.upper_bound) for r in model.reactions}
 
@@ -211,6 +237,7 @@ class SolverStub:
         self.variables = Container(variables)
         self.constraints = Container()
         self.objective = objective
+        self.status = None
 
 
 class RxnLP:
@@ -229,6 +256,31 @@ class RxnLP:
     @property
     def bounds(self):
         return (self.lower_bound, self.upper_bound)
+
+    @bounds.setter
+    def bounds(self, value):
+        lb, ub = value
+        if lb > ub:
+            raise ValueError("lower bound above upper bound")
+        self.lower_bound, self.upper_bound = lb, ub
+
+    @property
+    def reversibility(self):
+        return self.lower_bound < 0 < self.upper_bound
+
+    @property
+    def flux(self):
+        if self.model is None or self.model.last_fluxes is None:
+            raise Unsupported("flux before a solve")
+        return self.model.last_fluxes.get(self.id, 0.0)
+
+    model = None
+
+    def __hash__(self):
+        return hash(self.id)
+
+    def __eq__(self, o):
+        return self is o
 
     def __repr__(self):
         return f"RxnLP({self.id})"
@@ -281,6 +333,12 @@ class ModelLP:
         self._values = list(solve_values)
         self._stack: List[Tuple] = []
         self.flux_table: Dict[int, Dict[str, float]] = {}
+        self.script = None  # callable(model, formulation) -> (value, fluxes, status): plays the solver
+        self.last_fluxes: Optional[Dict[str, float]] = None
+        self.exchanges: List[RxnLP] = []
+        self.copies: List["ModelCopy"] = []
+        for r in reactions:
+            r.model = self
 
     # -- context
     def _absint_enter(self):
@@ -349,25 +407,75 @@ class ModelLP:
             for cont in (self.solver.variables, self.solver.constraints):
                 cont.items = [i for i in cont.items if i is not x]
 
+    @property
+    def objective_direction(self):
+        return self.solver.objective.direction
+
+    @objective_direction.setter
+    def objective_direction(self, value):
+        value = {"maximize": "max", "minimize": "min"}.get(value, value)
+        if value not in ("max", "min"):
+            raise ValueError("unknown objective direction")
+        self.solver.objective.direction = value
+
     def _solve(self) -> Tuple[Formulation, float]:
-        if not self._values:
-            raise Unsupported("more solves than modelled")
         f = Formulation(self)
-        v = self._values.pop(0)
+        if self.script is not None:
+            v, fluxes, status = self.script(self, f)
+            self.last_fluxes = dict(fluxes)
+            self.solver.status = status
+            self.flux_table[len(self.solves) + 1] = dict(fluxes)
+        else:
+            if not self._values:
+                raise Unsupported("more solves than modelled")
+            v = self._values.pop(0)
+            self.solver.status = "optimal"
         self.solves.append((f, v))
         return f, v
 
     def slim_optimize(self, error_value=float("nan"), message=None):
-        return self._solve()[1]
+        f, v = self._solve()
+        if self.solver.status != "optimal":
+            return error_value
+        return v
 
     def optimize(self, objective_sense=None, raise_error=False):
-        if objective_sense is not None:
-            raise Unsupported("optimize(objective_sense=...)")
-        f, v = self._solve()
-        return SolutionLP(f, list(self.reactions), v, self.fluxes_of(len(self.solves)))
+        # mirrors Model.optimize: an unknown sense keeps the current direction, which is restored afterwards
+        original = self.solver.objective.direction
+        self.solver.objective.direction = {"maximize": "max", "minimize": "min"}.get(objective_sense if isinstance(objective_sense, str) else None, original)
+        try:
+            f, v = self._solve()
+        finally:
+            self.solver.objective.direction = original
+        n = len(self.solves)
+        return SolutionLP(f, list(self.reactions), v, self.fluxes_of(n) if self.script is None else dict(self.last_fluxes or {}))
+
+    def copy(self):
+        c = ModelCopy(self)
+        self.copies.append(c)
+        return c
 
     def fluxes_of(self, n: int) -> Dict[str, float]:
         """Generic, pairwise distinct reference fluxes for the n-th solve."""
         if n not in self.flux_table:
             self.flux_table[n] = {r.id: round(((-1) ** k) * (1.375 + 0.8125 * k + 0.03125 * n), 6) if k % 3 else 0.0 for k, r in enumerate(self.reactions)}
         return self.flux_table[n]
+
+
+class ModelCopy:
+    """What Model.copy() returned: remembers the state it was taken in and what was removed from it."""
+
+    def __init__(self, src: ModelLP):
+        self.source = src
+        self.open_contexts = len(src._stack)
+        self.bounds = {r.id: (r.lower_bound, r.upper_bound) for r in src.reactions}
+        self.extra_variables = [v.name for v in src.solver.variables.items if v.name not in {x.name for r in src.reactions for x in (r.forward_variable, r.reverse_variable)}]
+        self.extra_constraints = [c.name for c in src.solver.constraints.items]
+        self.objective = src.solver.objective.expression.key()
+        self.removed: List[str] = []
+        self.remove_orphans = None
+
+    def remove_reactions(self, reactions, remove_orphans=False):
+        for r in reactions:
+            self.removed.append(getattr(r, "id", r))
+        self.remove_orphans = remove_orphans
